@@ -225,7 +225,7 @@ def check_deposit_wiring(ctx, model):
         check_newton_step(ctx, "C04-A5", nd, "param(2)", "param(3)", "param(4)", "param(5)", "item(stableswap_3pool::stableswap_math::curve::N_COINS)", CURVE + "::compute_next_d")
 
 
-def check_curve_inputs(ctx, model):
+def check_curve_inputs(ctx, model, rule="C04-A6"):
     """A6: every StableSwap the contract constructs (swap, deposit, the three queries, update_config) is built from
     (CONFIG.initial_amp, CONFIG.future_amp, the BLOCK HEIGHT of the call, CONFIG.initial_amp_block, CONFIG.future_amp_block):
     the ramp is defined over block heights, so a timestamp (or any other clock) as `current` makes the effective amplification
@@ -249,6 +249,6 @@ def check_curve_inputs(ctx, model):
             ok_cur = bool(cur) and all(o.kind == "param" and tuple(o.proj) == ("block", "height") for o in cur)
             if not ok_cur:
                 bad.append("current from %s (must be env.block.height)" % sorted(map(repr, cur)))
-            ctx.ob("C04-A6", "%s|curve-built-from-the-stored-ramp-and-the-block-height#%d" % (p, n), not bad,
+            ctx.ob(rule, "%s|curve-built-from-the-stored-ramp-and-the-block-height#%d" % (p, n), not bad,
                    "; ".join(bad) if bad else "StableSwap::new(CONFIG.initial_amp, CONFIG.future_amp, env.block.height, CONFIG.initial_amp_block, CONFIG.future_amp_block)", v.where(b))
-    ctx.floor("C04-A6", "StableSwap::new call sites", n, 5)
+    ctx.floor(rule, "StableSwap::new call sites", n, 5)
